@@ -39,11 +39,14 @@ pub struct Cfg {
     /// C08: now and then an input's redeemer is a value that has no Plutus-Data form (a bare UTxO reference):
     /// such a template has no denotation and must be refused, not compiled without the redeemer
     pub unencodable_redeemer: bool,
+    /// C08: a burn block carries its own redeemer even when a mint block of the tx names the same policy
+    /// (one slot, two redeemers: no denotation unless the two are equal)
+    pub redeemer_clash: bool,
 }
 
 impl Default for Cfg {
     fn default() -> Self {
-        Cfg { cardano_pct: 10, redeemers: true, risky_pct: 25, boundary_ints: false, max_txs: 2, balanced: false, min_utxo: false, max_cases: 4, datum_pct: 60, mint_pct: 40, datum_focus: false, redeemer_focus: false, partial_const: false, dup_tx_names: false, share_utxo_between_blocks: false, unencodable_redeemer: false }
+        Cfg { cardano_pct: 10, redeemers: true, risky_pct: 25, boundary_ints: false, max_txs: 2, balanced: false, min_utxo: false, max_cases: 4, datum_pct: 60, mint_pct: 40, datum_focus: false, redeemer_focus: false, partial_const: false, dup_tx_names: false, share_utxo_between_blocks: false, unencodable_redeemer: false, redeemer_clash: false }
     }
 }
 
@@ -1092,7 +1095,7 @@ impl<'r> Builder<'r> {
                     names.iter().any(|n| self.g.prog.assets.iter().any(|d| d.name == *n && d.policy == *p)) || contains_any_asset(&m.amount)
                 }),
             };
-            let redeemer = if self.cfg.redeemers && !clash && self.rng.chance(2, 3) {
+            let redeemer = if self.cfg.redeemers && (!clash || (self.cfg.redeemer_clash && burn_policy.is_some())) && self.rng.chance(2, 3) {
                 self.tag("burn-redeemer");
                 Some(self.any_datum(Pos::Plain))
             } else {
